@@ -47,6 +47,7 @@ def vec_run(prop, tier, seed, plan, interesting, assumptions, extra_cov=None):
     violations, known_seen, samples, runs = [], {}, [], []
     cut = 0
     pages_checked = pages_equal = 0
+    read_calls = read_states = accesses = 0
     for item in plan:
         wd = vlib.scratch_dir("vec")
         try:
@@ -84,7 +85,7 @@ def vec_run(prop, tier, seed, plan, interesting, assumptions, extra_cov=None):
                 futs = {}
                 for rp in item["replays"]:
                     f, ty, b = rp[:3]
-                    extra = ["--special"] if len(rp) > 3 and rp[3] == "special" else []
+                    extra = ["--special"] if len(rp) > 3 and rp[3] == "special" else (["--reads"] if len(rp) > 3 and rp[3] == "reads" else [])
                     for si, sf in enumerate(shard_files):
                         futs[ex.submit(vlib.run_vh, ["vecreplay", "--in", sf, "--format", f, "--type", ty, "--k", str(item["K"]),
                                                     "--block", str(b)] + extra)] = (f, ty, b, si)
@@ -97,6 +98,7 @@ def vec_run(prop, tier, seed, plan, interesting, assumptions, extra_cov=None):
                     cut += r["cut_permitted"]
                     pages_checked += r["pages_checked"]
                     pages_equal += r["pages_equal_model"]
+                    read_calls += r.get("read_calls", 0); read_states += r.get("read_states", 0); accesses += r.get("accesses_checked", 0)
                     for k in r["known"]:
                         e = known_seen.setdefault(k["dev"], {"count": 0, "history": k["history"], "format": f})
                         e["count"] += k["count"]
@@ -124,6 +126,7 @@ def vec_run(prop, tier, seed, plan, interesting, assumptions, extra_cov=None):
                    "replayed on the real vector with the observable projection compared after every step; distinct counts (format, behaviour) pairs; " + interesting,
            "exhaustive": True, "runs": runs, "deviations_taken": {k: v["count"] for k, v in known_seen.items()},
            "cut_after_permitted_divergence": cut, "page_index_checks": pages_checked, "page_index_equal_to_model": pages_equal,
+           "read_calls": read_calls, "states_read": read_states, "accesses_checked": accesses,
            "checker_cmd": "tlc -config <generated> MCVec.tla ; vh vecreplay"}
     if extra_cov:
         cov.update(extra_cov)
@@ -190,6 +193,54 @@ def c07(prop, tier, seed):
                    "(start/bytes/count/raw per entry, data-region length) is read from the real regions after every successful write",
                    VEC_ASSUME + ["bit-exact comparison uses a table of extreme integers / IEEE-754 special patterns (NaN payloads, +-0, "
                                  "subnormals, infinities) followed by pseudo-random bit patterns; it is a harness-side oracle (shadow list)"])
+
+
+def reads_plan(tier):
+    rd = lambda f, t, b: (f, t, b, "reads")
+    raw_ops = RAW_EDIT + ["write", "reimport", "reset"]
+    cmp_ops = CMP_EDIT + ["write", "reimport", "reset"]
+    return [
+        dict(kind="raw", K=0, PP=2, MaxLen=3, MaxStamp=1, Depth=q(tier, 5, 7), ops=raw_ops, histk=0,
+             replays=[rd("bytes", "u32", 1), rd("zerocopy", "u32", 1)] + q(tier, [], [rd("bytes", "u64", 3), rd("eager_bytes", "u32", 1)])),
+        dict(kind="cmp", K=0, PP=2, MaxLen=5, MaxStamp=1, Depth=q(tier, 6, 8), ops=cmp_ops, histk=0,
+             replays=[rd("pco", "u32", 1), rd("lz4", "u32", 1), rd("zstd", "u32", 1), rd("pco", "u32", 2048), rd("eager_pco", "u32", 1)]
+                     + q(tier, [], [rd("lz4", "u32", 2048), rd("zstd", "u64", 1024), rd("pco", "u64", 1025)])),
+        # states after commits and rollbacks (logical length above / below what is on disk)
+        dict(kind="raw", K=2, PP=2, MaxLen=2, MaxStamp=3, Depth=q(tier, 7, 8), histk=0,
+             ops=["push", "truncate", "update", "delete", "reimport", "commit", "rollback", "rollback_before"],
+             replays=[rd("bytes", "u32", 1)] + q(tier, [], [rd("zerocopy", "u32", 1)])),
+        dict(kind="cmp", K=2, PP=2, MaxLen=4, MaxStamp=3, Depth=q(tier, 6, 7), histk=0,
+             ops=["push", "truncate", "reimport", "commit", "rollback", "rollback_before"],
+             replays=[rd("pco", "u32", 1)] + q(tier, [], [rd("lz4", "u32", 2048)])),
+    ]
+
+
+READS_ASSUME = VEC_ASSUME + [
+    "ranges: all pairs (from, to) over {0, 1, len-1, len, len+1, len+5} and the block boundaries +-1, reversed and out-of-range pairs included",
+    "read-only clones, boxed clones, point readers and stored-only scans are compared with the reference only in states where everything is "
+    "stored (right after a successful write / commit / re-import, no deleted slot); in other states they are exercised for the access tap only",
+    "the generic entry points take the file-IO back-end only above 1 GiB; the IO sources are reached through fold_stored_io",
+    "CachedVec is not exercised"]
+
+
+@register("C08")
+def c08(prop, tier, seed):
+    r = vec_run(prop, tier, seed, reads_plan(tier),
+                "non-trivial = length >= 3 with a continuation after re-import/reset/rollback; every state of every behaviour is read through every path",
+                READS_ASSUME)
+    r["violations"] = [v for v in r["violations"] if v.get("reads") or "panick" in str(v.get("what", ""))]
+    return r
+
+
+@register("C20")
+def c20(prop, tier, seed):
+    r = vec_run(prop, tier, seed, reads_plan(tier),
+                "non-trivial = length >= 3 with a continuation after re-import/reset/rollback; every fetch from the mapping or the data file made while "
+                "operating on and reading the vector is compared with the owning region's current length",
+                READS_ASSUME + ["accesses are observed through the cfg(anydb_verif) access tap: Reader::unchecked_read, the raw strategies' pointer reads, "
+                                "the bulk slice reads and the buffered file reads of the IO sources"])
+    r["violations"] = [v for v in r["violations"] if v.get("access")]
+    return r
 
 
 @register("C04")
